@@ -1,3 +1,573 @@
+//! Conformance harness for the specification-growth module G18 (lists,
+//! pipelines and compound commands beyond Semantics.tla: asynchronous lists,
+//! pipefail, case continuations, for, redirected compound commands); see
+//! spec/ListsExt.tla.
+//!
+//!   yv-g18 run    --in gen.ndjson --out verdicts.ndjson [--variants V] [--every N] [--jobs J] [--dfs N --depth D --rand R]
+//!       spec -> impl: every program printed by TLC (Gen_ListsExt) with the
+//!       outcome the specification prescribes is rendered to shell text
+//!       (seeded surface variation), executed on the simulated OS - programs
+//!       with concurrent processes also under depth-first enumerated and
+//!       random schedules - and compared (exec::conforms).
+//!   yv-g18 random --n N --size S --out recs.ndjson --full recs.full.ndjson [--jobs J]
+//!       impl -> spec: seeded random larger programs are executed under random
+//!       schedules and recorded for validation by spec/Trace_ListsExt.tla.
+//!   yv-g18 redo   --in replay.json
+//!       re-executes the program of a replay file and prints the observation.
+//!
+//! Every execution happens in a worker process supervised with a watchdog: a
+//! hang or a crash of the shell is recorded as data (outcome "timeout" /
+//! "crash"), never a harness failure.
+mod ast;
+mod exec;
+mod randgen;
+mod render;
+
+use ast::{Node, Tok};
+use exec::Obs;
+use rand::SeedableRng;
+use rand::rngs::StdRng;
+use render::Renderer;
+use yvcommon::sched::Schedule;
+use serde_json::{Value, json};
+use std::io::{BufRead, BufReader, Write};
+use std::process::{Command, Stdio};
+use std::sync::mpsc;
+use std::time::Duration;
+use yvcommon::util::{opt, opt_usize, seed};
+
+/// A worker that prints nothing for this long is considered hung on the
+/// program it announced (simulated runs take well under a millisecond of CPU;
+/// the margin is for a heavily loaded machine).
+const STALL_SIM: Duration = Duration::from_secs(8);
+
+fn mix(a: u64, b: u64) -> u64 {
+    let mut x = a.wrapping_mul(0x9E37_79B9_7F4A_7C15).wrapping_add(b).wrapping_add(0x632B_E59B_D9B4_E019);
+    x ^= x >> 29;
+    x = x.wrapping_mul(0xBF58_476D_1CE4_E5B9);
+    x ^= x >> 32;
+    x
+}
+
+fn schedules_for(first: &Obs, dfs: usize, depth: usize, rand: usize, seed: u64, r: &render::Rendered,
+                 mut f: impl FnMut(&Obs, &str) -> bool) {
+    // depth-first enumeration of the schedules that differ within the first
+    // `depth` choice points, at most `dfs` of them, then `rand` random ones
+    let mut choices = first.choices.clone();
+    let mut n = 0;
+    while n < dfs {
+        let Some(prefix) = yvcommon::sched::next_prefix(&choices, depth) else { break };
+        let desc = format!("prefix {prefix:?}");
+        let o = exec::run_sim(r, Schedule::Prefix(prefix));
+        choices = o.choices.clone();
+        n += 1;
+        if !f(&o, &desc) {
+            return;
+        }
+    }
+    for k in 0..rand {
+        let sd = mix(seed, 0xabc0 + k as u64);
+        let o = exec::run_sim(r, Schedule::Random(sd));
+        if !f(&o, &format!("random {sd}")) {
+            return;
+        }
+    }
+}
+
+// ---------------------------------------------------------------------------
+// workers
+// ---------------------------------------------------------------------------
+
+fn emit(line: &str) {
+    let out = std::io::stdout();
+    let mut l = out.lock();
+    let _ = l.write_all(line.as_bytes());
+    let _ = l.write_all(b"\n");
+    let _ = l.flush();
+}
+
+/// P2 worker: reads TLC's lines, handles those with index % parts == part and >= skip.
+fn worker_run(args: &[String]) -> i32 {
+    let variants = opt_usize(args, "--variants", 2);
+    let every = opt_usize(args, "--every", 1).max(1);
+    let part = opt_usize(args, "--part", 0);
+    let parts = opt_usize(args, "--parts", 1).max(1);
+    let skip = opt_usize(args, "--skip", 0);
+    let dfs = opt_usize(args, "--dfs", 6);
+    let depth = opt_usize(args, "--depth", 6);
+    let nrand = opt_usize(args, "--rand", 2);
+    let only = opt(args, "--only").and_then(|s| s.parse::<usize>().ok());
+    let path = opt(args, "--in").expect("--in");
+    let f = BufReader::new(std::fs::File::open(path).expect("open --in"));
+    let sd = seed();
+    for (idx, line) in f.lines().enumerate() {
+        let line = line.expect("read");
+        if let Some(o) = only {
+            if idx != o {
+                continue;
+            }
+        } else if idx % parts != part || idx < skip || (idx / parts) % every != 0 {
+            continue;
+        }
+        let v: Value = match serde_json::from_str(&line) {
+            Ok(v) => v,
+            Err(_) => continue,
+        };
+        let toks: Vec<Tok> = serde_json::from_value(v["p"].clone()).expect("tokens");
+        let Some(tree) = ast::parse(&toks) else {
+            emit(&format!("R {}", json!({"i": idx, "bad": "unparsable program"})));
+            continue;
+        };
+        emit(&format!("S {} {}", idx, json!({"i": idx, "p": v["p"]})));
+        let mut runs = 0;
+        let mut scheds = 0;
+        let mut unspec = 0;
+        let mut open = 0;
+        let mut div = 0;
+        let mut okpairs = 0;
+        let mut fails: Vec<Value> = vec![];
+        let mut sample = Value::Null;
+        let conc = tree.any(&|n| matches!(n.k.as_str(), "bg" | "pipe" | "pipe3"));
+        let mut tags: Vec<String> = vec![];
+        for (oi, o) in v["o"].as_array().cloned().unwrap_or_default().iter().enumerate() {
+            match o["oc"].as_str().unwrap_or("") {
+                "ok" => {}
+                "unspec" => {
+                    unspec += 1;
+                    continue;
+                }
+                "open" => {
+                    open += 1;
+                    continue;
+                }
+                _ => {
+                    div += 1;
+                    continue;
+                }
+            }
+            okpairs += 1;
+            let e = o["e"].as_i64().unwrap_or(0) != 0;
+            let pf = o["pf"].as_i64().unwrap_or(0) != 0;
+            let exp = exec::expected_of(o);
+            for tg in o["tg"].as_array().cloned().unwrap_or_default() {
+                if let Some(tg) = tg.as_str() {
+                    if !tags.iter().any(|x| x == tg) {
+                        tags.push(tg.to_string());
+                    }
+                }
+            }
+            for vi in 0..variants {
+                let s = mix(mix(mix(sd, idx as u64), oi as u64), vi as u64);
+                // the first variant is the plain rendering, the others vary the surface
+                let mut rd = Renderer::new(s, vi > 0 || variants == 1 && idx % 2 == 1);
+                let rendered = rd.program(&tree, e, pf);
+                let first = exec::run_sim(&rendered, Schedule::Fifo);
+                runs += 1;
+                let check = |obs: &Obs, sched: &str, fails: &mut Vec<Value>| -> bool {
+                    let verdict = exec::conforms(&exp, obs);
+                    if let Err(why) = verdict {
+                        if fails.len() < 2 {
+                            fails.push(json!({"e": o["e"], "pf": o["pf"], "tg": o["tg"], "x": o["x"], "why": why,
+                                "text": rendered.script, "flags": rendered.flags, "file": rendered.via_file, "sched": sched,
+                                "expected": {"tr": o["tr"], "win": o["win"], "st": o["st"], "out": o["out"], "ff": o["ff"], "orace": o["orace"]},
+                                "observed": obs.to_json()}));
+                        }
+                        return false;
+                    }
+                    true
+                };
+                let ok = check(&first, "fifo", &mut fails);
+                if sample.is_null() && (idx % 97 == 0) {
+                    sample = json!({"text": rendered.script, "flags": rendered.flags,
+                                    "expected": {"tr": o["tr"], "win": o["win"], "st": o["st"]}, "observed": first.to_json()});
+                }
+                if ok && conc && first.oc == "completed" {
+                    // the same rendering under other schedules
+                    let (d, r) = if vi == 0 { (dfs, nrand) } else { (0, nrand) };
+                    schedules_for(&first, d, depth, r, s, &rendered, |obs, desc| {
+                        runs += 1;
+                        scheds += 1;
+                        check(obs, desc, &mut fails)
+                    });
+                }
+            }
+        }
+        emit(&format!(
+            "R {}",
+            json!({"i": idx, "p": v["p"], "runs": runs, "scheds": scheds, "pairs": okpairs, "unspec": unspec, "open": open, "div": div,
+                   "fails": fails, "sample": sample, "tags": tags})
+        ));
+    }
+    0
+}
+
+/// P3 worker: generates program i from the seed, executes it, records it.
+fn worker_random(args: &[String]) -> i32 {
+    let n = opt_usize(args, "--n", 100);
+    let size = opt_usize(args, "--size", 40);
+    let part = opt_usize(args, "--part", 0);
+    let parts = opt_usize(args, "--parts", 1).max(1);
+    let skip = opt_usize(args, "--skip", 0);
+    let only = opt(args, "--only").and_then(|s| s.parse::<usize>().ok());
+    let sd = seed();
+    for idx in 0..n {
+        if let Some(o) = only {
+            if idx != o {
+                continue;
+            }
+        } else if idx % parts != part || idx < skip {
+            continue;
+        }
+        let mut rng = StdRng::seed_from_u64(mix(mix(sd, 0x5eed), idx as u64));
+        use rand::Rng;
+        let sz = rng.gen_range(3..=size);
+        let profile = rng.gen_range(0..4);
+        let tree0 = {
+            let mut g = randgen::Gen { rng: &mut rng, profile };
+            g.program(sz)
+        };
+        let mut toks = vec![];
+        ast::flatten(&tree0, &mut toks);
+        let tree = ast::parse(&toks).expect("own program parses");
+        let e = rng.gen_bool(0.25);
+        let pf = rng.gen_bool(0.4);
+        let mut rd = Renderer::new(mix(sd, idx as u64), true);
+        let rendered = rd.program(&tree, e, pf);
+        let sched = if rng.gen_bool(0.2) { Schedule::Fifo } else { Schedule::Random(mix(sd, 77 + idx as u64)) };
+        let head = json!({"i": idx, "p": toks, "e": e as i64, "pf": pf as i64, "text": rendered.script,
+                          "flags": rendered.flags, "file": rendered.via_file, "sched": format!("{sched:?}")});
+        emit(&format!("S {} {}", idx, head));
+        let obs = exec::run_sim(&rendered, sched);
+        let mut rec = head;
+        rec["oc"] = json!(obs.oc);
+        // (an abandoned run may have recorded thousands of observations: keep a prefix)
+        let keep = if obs.oc == "completed" { obs.tr.len() } else { obs.tr.len().min(200) };
+        rec["tr"] = exec::tr_json(&obs.tr[..keep]);
+        rec["st"] = json!(obs.st);
+        rec["out"] = json!(obs.out);
+        rec["ff"] = json!(obs.ff);
+        rec["detail"] = json!(obs.detail);
+        emit(&format!("R {rec}"));
+    }
+    0
+}
+
+// ---------------------------------------------------------------------------
+// supervisor
+// ---------------------------------------------------------------------------
+
+type Pending = Option<(usize, Value)>;
+
+/// One worker process to its end (or to a stall).  Result records are sent on
+/// `tx`; returns the item that was being executed when the worker was lost
+/// and why ("timeout" / "crash"), or (None, None) after a clean end.
+fn run_worker(
+    exe: &std::path::Path,
+    worker: &str,
+    args: &[String],
+    extra: &[String],
+    stall: Duration,
+    tx: &mpsc::Sender<Result<Value, String>>,
+) -> (Pending, Option<&'static str>, Option<usize>) {
+    let mut last_done: Option<usize> = None;
+    let mut child = match Command::new(exe)
+        .arg(worker)
+        .args(args)
+        .args(extra)
+        .stdin(Stdio::null())
+        .stdout(Stdio::piped())
+        .stderr(Stdio::null())
+        .spawn()
+    {
+        Ok(c) => c,
+        Err(e) => {
+            let _ = tx.send(Err(format!("cannot spawn worker: {e}")));
+            return (None, None, None);
+        }
+    };
+    let stdout = child.stdout.take().unwrap();
+    let (ltx, lrx) = mpsc::channel::<String>();
+    let reader = std::thread::spawn(move || {
+        for line in BufReader::new(stdout).lines().map_while(Result::ok) {
+            if ltx.send(line).is_err() {
+                break;
+            }
+        }
+    });
+    let mut pending: Pending = None;
+    let mut lost: Option<&'static str> = None;
+    loop {
+        match lrx.recv_timeout(stall) {
+            Ok(line) => {
+                if let Some(rest) = line.strip_prefix("S ") {
+                    let mut it = rest.splitn(2, ' ');
+                    let idx: usize = it.next().and_then(|s| s.parse().ok()).unwrap_or(0);
+                    let v: Value = it.next().and_then(|s| serde_json::from_str(s).ok()).unwrap_or(Value::Null);
+                    pending = Some((idx, v));
+                } else if let Some(rest) = line.strip_prefix("R ") {
+                    pending = None;
+                    match serde_json::from_str::<Value>(rest) {
+                        Ok(v) => {
+                            if let Some(i) = v["i"].as_u64() {
+                                last_done = Some(i as usize);
+                            }
+                            let _ = tx.send(Ok(v));
+                        }
+                        Err(e) => {
+                            let _ = tx.send(Err(format!("bad worker line: {e}")));
+                        }
+                    }
+                }
+            }
+            Err(mpsc::RecvTimeoutError::Timeout) => {
+                let _ = child.kill();
+                lost = Some("timeout");
+                break;
+            }
+            Err(mpsc::RecvTimeoutError::Disconnected) => break,
+        }
+    }
+    let status = child.wait();
+    let _ = reader.join();
+    let clean = matches!(&status, Ok(s) if s.success());
+    if lost.is_none() && !clean {
+        lost = Some("crash");
+    }
+    (pending, lost, last_done)
+}
+
+/// Runs `worker` (a sub-command of this binary) as child processes, `jobs` in
+/// parallel, each restarted after a stall or crash.  `on_result` receives
+/// every result record; `on_lost(pending, why)` builds the record for an item
+/// whose execution hung ("timeout") or killed the worker ("crash").
+fn supervise(worker: &str, args: &[String], jobs: usize, sink: &mut dyn FnMut(Value)) -> Result<(), String> {
+    let exe = std::env::current_exe().map_err(|e| e.to_string())?;
+    let stall = STALL_SIM;
+    let (tx, rx) = mpsc::channel::<Result<Value, String>>();
+    let mut handles = vec![];
+    for part in 0..jobs {
+        let tx = tx.clone();
+        let exe = exe.clone();
+        let args: Vec<String> = args.to_vec();
+        let worker = worker.to_string();
+        handles.push(std::thread::spawn(move || {
+            let mut skip = 0usize;
+            let mut restarts = 0;
+            let mut confirmed_hangs = 0;
+            let mut lost_items = 0;
+            loop {
+                let extra = vec!["--part".to_string(), part.to_string(), "--parts".into(), jobs.to_string(),
+                                 "--skip".into(), skip.to_string()];
+                let (pending, lost, last_done) = run_worker(&exe, &worker, &args, &extra, stall, &tx);
+                if let Some(d) = last_done {
+                    skip = skip.max(d + 1);
+                }
+                let Some(why) = lost else { return };
+                restarts += 1;
+                if restarts > 300 {
+                    let _ = tx.send(Err("too many worker restarts".into()));
+                    return;
+                }
+                match pending {
+                    Some((idx, mut v)) => {
+                        // A stall may be an overloaded machine: run the item once more, alone,
+                        // with a generous limit, before calling it a hang of the shell.
+                        let mut settled = false;
+                        if why == "timeout" && confirmed_hangs < 1 {
+                            let extra = vec!["--only".to_string(), idx.to_string()];
+                            let (p2, l2, _) = run_worker(&exe, &worker, &args, &extra, stall * 4, &tx);
+                            if l2.is_none() && p2.is_none() {
+                                settled = true; // its result record has been delivered
+                            } else {
+                                confirmed_hangs += 1;
+                            }
+                        }
+                        if !settled {
+                            v["lost"] = json!(why);
+                            let _ = tx.send(Ok(v));
+                            lost_items += 1;
+                            if lost_items >= 4 {
+                                // the shell hangs or crashes on many programs: enough evidence
+                                let _ = tx.send(Ok(json!({"note": format!(
+                                    "part {part}/{jobs} abandoned after {lost_items} hung/crashed executions")})));
+                                return;
+                            }
+                        }
+                        skip = skip.max(idx + 1);
+                    }
+                    None => {
+                        // lost between two items (start-up, end): nothing to attribute; go on
+                        // after the last item that was completed
+                        let _ = tx.send(Ok(json!({"note": format!("worker restarted ({why}) outside an execution")})));
+                        if restarts > 20 {
+                            let _ = tx.send(Err(format!("worker repeatedly lost ({why}) outside an execution")));
+                            return;
+                        }
+                    }
+                }
+            }
+        }));
+    }
+    drop(tx);
+    let mut err = None;
+    for m in rx {
+        match m {
+            Ok(v) => sink(v),
+            Err(e) => err = Some(e),
+        }
+    }
+    for h in handles {
+        let _ = h.join();
+    }
+    match err {
+        Some(e) => Err(e),
+        None => Ok(()),
+    }
+}
+
+fn passthrough(args: &[String]) -> Vec<String> {
+    // everything except --out/--full/--jobs
+    let mut out = vec![];
+    let mut i = 0;
+    while i < args.len() {
+        if matches!(args[i].as_str(), "--out" | "--full" | "--jobs") {
+            i += 2;
+            continue;
+        }
+        out.push(args[i].clone());
+        i += 1;
+    }
+    out
+}
+
+fn cmd_run(args: &[String]) -> i32 {
+    let jobs = opt_usize(args, "--jobs", 4).max(1);
+    let out_path = opt(args, "--out").expect("--out");
+    let mut out = std::io::BufWriter::new(std::fs::File::create(out_path).expect("create --out"));
+    let mut sink = |v: Value| {
+        let _ = writeln!(out, "{v}");
+    };
+    match supervise("worker-run", &passthrough(args), jobs, &mut sink) {
+        Ok(()) => 0,
+        Err(e) => {
+            eprintln!("yv-g18 run: {e}");
+            2
+        }
+    }
+}
+
+fn cmd_random(args: &[String]) -> i32 {
+    let jobs = opt_usize(args, "--jobs", 4).max(1);
+    let out_path = opt(args, "--out").expect("--out");
+    let full_path = opt(args, "--full").expect("--full");
+    let mut recs: Vec<Value> = vec![];
+    let mut sink = |v: Value| {
+        if v.get("note").is_none() {
+            recs.push(v)
+        }
+    };
+    if let Err(e) = supervise("worker-random", &passthrough(args), jobs, &mut sink) {
+        eprintln!("yv-g18 random: {e}");
+        return 2;
+    }
+    recs.sort_by_key(|v| v["i"].as_u64().unwrap_or(0));
+    let mut out = std::io::BufWriter::new(std::fs::File::create(out_path).expect("create --out"));
+    let mut full = std::io::BufWriter::new(std::fs::File::create(full_path).expect("create --full"));
+    for mut v in recs {
+        if let Some(why) = v.get("lost").and_then(|w| w.as_str()).map(|s| s.to_string()) {
+            v["oc"] = json!(why);
+            v["tr"] = json!([]);
+            v["st"] = json!(-1);
+            v["out"] = json!([]);
+            v["ff"] = json!([]);
+        }
+        let _ = writeln!(full, "{v}");
+        let slim = json!({"p": v["p"], "e": v["e"], "pf": v["pf"], "oc": v["oc"], "tr": v["tr"], "st": v["st"],
+                          "out": v["out"], "ff": v["ff"]});
+        let _ = writeln!(out, "{slim}");
+    }
+    0
+}
+
+/// Re-executes one program: {"p": tokens, "e", "pf", optional "text", "flags", "file", "sched"}.
+fn cmd_redo(args: &[String]) -> i32 {
+    let path = opt(args, "--in").expect("--in");
+    let v: Value = serde_json::from_str(&std::fs::read_to_string(path).expect("read --in")).expect("json");
+    let rendered = if let Some(text) = v.get("text").and_then(|t| t.as_str()) {
+        render::Rendered {
+            script: text.to_string(),
+            flags: v["flags"].as_array().map(|a| a.iter().filter_map(|f| f.as_str().map(String::from)).collect()).unwrap_or_default(),
+            via_file: v["file"].as_bool().unwrap_or(false),
+        }
+    } else {
+        let toks: Vec<Tok> = serde_json::from_value(v["p"].clone()).expect("tokens");
+        let tree: Node = ast::parse(&toks).expect("program");
+        let mut rd = Renderer::new(1, false);
+        rd.program(&tree, v["e"].as_i64().unwrap_or(0) != 0, v["pf"].as_i64().unwrap_or(0) != 0)
+    };
+    let sched = parse_sched(v["sched"].as_str().unwrap_or("fifo"));
+    let obs = exec::run_sim(&rendered, sched);
+    println!("{}", json!({"text": rendered.script, "flags": rendered.flags, "observed": obs.to_json()}));
+    0
+}
+
+/// "fifo", "prefix [1, 0]", "random 123", "Random(123)", "Fifo"
+fn parse_sched(s: &str) -> Schedule {
+    let digits = |t: &str| -> Vec<u64> {
+        t.split(|c: char| !c.is_ascii_digit()).filter(|w| !w.is_empty()).filter_map(|w| w.parse().ok()).collect()
+    };
+    let l = s.to_ascii_lowercase();
+    if l.starts_with("prefix") {
+        Schedule::Prefix(digits(&l).into_iter().map(|x| x as usize).collect())
+    } else if l.starts_with("random") {
+        Schedule::Random(digits(&l).first().copied().unwrap_or(0))
+    } else {
+        Schedule::Fifo
+    }
+}
+
+/// Debug aid: prints the renderings of the programs of a TLC output file.
+fn cmd_render(args: &[String]) -> i32 {
+    let path = opt(args, "--in").expect("--in");
+    let vary = opt_usize(args, "--vary", 0) != 0;
+    let f = BufReader::new(std::fs::File::open(path).expect("open"));
+    for (idx, line) in f.lines().enumerate() {
+        let v: Value = serde_json::from_str(&line.unwrap()).unwrap();
+        let toks: Vec<Tok> = serde_json::from_value(v["p"].clone()).unwrap();
+        let tree = ast::parse(&toks).unwrap();
+        let mut rd = Renderer::new(idx as u64, vary);
+        let r = rd.program(&tree, false, false);
+        println!("{}", json!({"i": idx, "text": r.script}));
+    }
+    0
+}
+
 fn main() {
-    println!("stub");
+    yvcommon::real::maybe_child_main();
+    let args: Vec<String> = std::env::args().collect();
+    if args.len() < 2 {
+        eprintln!("usage: yv-g18 <run|random|redo|render> ...");
+        std::process::exit(2);
+    }
+    let rest = &args[2..];
+    exec::TICK_LIMIT.store(opt_usize(rest, "--tick", 2) as i64, std::sync::atomic::Ordering::Relaxed);
+    let code = match args[1].as_str() {
+        "run" => cmd_run(rest),
+        "random" => cmd_random(rest),
+        "redo" => cmd_redo(rest),
+        "render" => cmd_render(rest),
+        "worker-run" => {
+            yvcommon::util::quiet_panics();
+            worker_run(rest)
+        }
+        "worker-random" => {
+            yvcommon::util::quiet_panics();
+            worker_random(rest)
+        }
+        other => {
+            eprintln!("unknown subcommand {other}");
+            2
+        }
+    };
+    std::process::exit(code);
 }
